@@ -70,7 +70,7 @@ func initPin(steps []schedStep, gors []gorInfo) {
 	}
 	p := &pin{steps: steps, done: make([]bool, len(steps)), gid: map[int64]int{}, cur: map[int]int{}, from: map[int]int{},
 		bySite: map[string][]int{}, taken: map[string]int{}, native: map[int]bool{0: true}, fire: map[string]func(){}, active: true,
-		timeout: 30 * time.Millisecond}
+		timeout: 300 * time.Millisecond}
 	p.cond = sync.NewCond(&p.mu)
 	for _, g := range gors {
 		site := g.Name
@@ -229,12 +229,25 @@ func (p *pin) enter(site string) int {
 		p.cur[id] = idx
 		return p.steps[idx].Case
 	}
+	// Wait for our turn. The step that holds us up (p.next) belongs to some
+	// goroutine H. If H has been granted that step and is now blocked inside the
+	// operation (its partner comes later in the trace), the step counts as parked
+	// and we move on; if H has not reached its replay point yet we wait for it.
+	// A generous overall time-out keeps replay from hanging when the native run
+	// diverges from the trace.
 	deadline := time.Now().Add(p.timeout)
 	for p.next < idx {
 		if time.Now().After(deadline) {
 			break // soft pinning: proceed
 		}
-		waitCond(p.cond, 2*time.Millisecond)
+		j := p.next
+		h := p.steps[j].G
+		if p.native[h] && p.cur[h] == j && p.blocked(h) {
+			p.done[j] = true // parked inside its operation
+			p.advanceLocked()
+			continue
+		}
+		waitCond(p.cond, time.Millisecond)
 		p.advanceLocked()
 	}
 	p.cur[id] = idx
@@ -245,6 +258,41 @@ func (p *pin) enter(site string) int {
 }
 
 var pinDebug = os.Getenv("VERIF_PIN_DEBUG") != ""
+
+// blocked reports whether the native goroutine of engine goroutine id is waiting
+// (channel operation, select, lock, ...), judged from its state in a stack dump.
+func (p *pin) blocked(id int) bool {
+	var goid int64 = -1
+	for g, e := range p.gid {
+		if e == id {
+			goid = g
+		}
+	}
+	if goid < 0 {
+		return false
+	}
+	buf := make([]byte, 1<<18)
+	n := runtime.Stack(buf, true)
+	needle := []byte("goroutine " + strconv.FormatInt(goid, 10) + " [")
+	i := bytes.Index(buf[:n], needle)
+	if i < 0 {
+		return false
+	}
+	rest := buf[i+len(needle) : n]
+	j := bytes.IndexByte(rest, ']')
+	if j < 0 {
+		return false
+	}
+	state := string(rest[:j])
+	if k := strings.IndexByte(state, ','); k >= 0 {
+		state = state[:k]
+	}
+	switch state {
+	case "running", "runnable", "syscall":
+		return false
+	}
+	return true
+}
 
 func waitCond(c *sync.Cond, d time.Duration) {
 	t := time.AfterFunc(d, c.Broadcast)
